@@ -32,7 +32,11 @@ use std::{
 };
 
 use fnv::FnvHashMap;
+#[cfg(not(libp2p_verif))]
 use web_time::Instant;
+
+#[cfg(libp2p_verif)]
+use crate::verif_codec::clock::Instant;
 
 struct ExpiringElement<Element> {
     /// The element that expires
